@@ -247,7 +247,7 @@ def _run_integrator_history(case):
                 viol.append({"sig": "C02:GaussianQuadrature:setter-history:%s:differs-from-constructed" % kind, "what": what,
                              "expected": [ref[k] for k in bad[:4]], "observed": [got[k] for k in bad[:4]]})
     return {"viol": viol[:6], "classes": classes, "n": max(n, 1), "outcome": ("integrator-history", case["final"], case["start"], n, len(viol)),
-            "states": [("gq", case["final"], case["start"])], "transitions": 3 * n, "nontrivial": nontrivial}
+            "transitions": 3 * n, "nontrivial": nontrivial}
 
 
 def crash_label(case):
